@@ -105,6 +105,9 @@ def judge_name(ctx, name, flags=None):
         if got is not None and got != outs[1]:
             ctx.violation("attribute-namespace-argument-changes-the-name", dict(case, namespace=ns), "%r vs %r" % (got, outs[1]))
             return None
+    if not isinstance(outs[0], str):
+        ctx.violation("element-name-result-not-a-string", case, "coerceElement(%r) = %r" % (name, outs[0]))
+        return None
     for out in outs:
         if out is None:
             ctx.count("attribute_dropped_by_flag")
@@ -128,13 +131,46 @@ def judge_name(ctx, name, flags=None):
     return outs[0]
 
 
+class _Budget(Exception):
+    pass
+
+
+def bounded(fn, *a):
+    """fn(*a) under a budget of traced line events (the coercion functions contain while-loops over the data): a call that
+    does not come back within 20000 lines for inputs of a few dozen characters is reported, not waited for."""
+    import sys
+    n = [0]
+
+    def tr(frame, event, arg):
+        if event == "line":
+            n[0] += 1
+            if n[0] > 20000:
+                raise _Budget()
+        return tr
+    old = sys.gettrace()
+    sys.settrace(tr)
+    try:
+        return fn(*a)
+    finally:
+        sys.settrace(old)
+
+
 def judge_comment(ctx, data, flags):
     from html5lib import _ihatexml
     f = _ihatexml.InfosetFilter(**flags)
-    out = f.coerceComment(data)
+    try:
+        out = bounded(f.coerceComment, data)
+    except _Budget:
+        ctx.case(["comment", data, sorted(flags.items())])
+        ctx.violation("comment-coercion-does-not-terminate", {"kind": "comment", "data": data, "flags": flags},
+                      "coerceComment(%r) exceeded 20000 traced lines (flags %r)" % (data, sorted(k for k, v in flags.items() if v)))
+        return
     case = {"kind": "comment", "data": data, "flags": flags}
     ctx.case(["comment", data, sorted(flags.items())])
     ctx.count("comment_cases")
+    if not isinstance(out, str):
+        ctx.violation("comment-result-not-a-string", case, "coerceComment(%r) = %r" % (data, out))
+        return
     if flags.get("preventDoubleDashComments") and "--" in out:
         ctx.violation("comment-double-dash", case, "coerceComment(%r) = %r contains '--'" % (data, out))
     if (flags.get("preventDashAtCommentEnd") or flags.get("preventDoubleDashComments")) and out.endswith("-"):
@@ -151,6 +187,9 @@ def judge_pubid(ctx, data, flags):
     case = {"kind": "pubid", "data": data, "flags": flags}
     ctx.case(["pubid", data, sorted(flags.items())])
     ctx.count("pubid_cases")
+    if not isinstance(out, str):
+        ctx.violation("pubid-result-not-a-string", case, "coercePubid(%r) = %r" % (data, out))
+        return
     badc = [c for c in out if c not in PUBID_OK]
     if badc:
         ctx.violation("pubid-non-pubidchar", case, "coercePubid(%r) = %r contains %r" % (data, out, badc[:3]))
